@@ -200,6 +200,18 @@ def check_model(model, planted=False):
                     elif g is not None:
                         claims.append(smt.eq(g, d))
             nb_names = [f"nl{i}" for i in range(len(cols2))] + [f"nu{i}" for i in range(len(cols2))]
+            # ... and the same cost vector and rows as the first extraction (which were compared with the model above)
+            same, shape_bad = [], None
+            for nm in ("c", "A_ub", "b_ub", "A_eq", "b_eq"):
+                a1, a2 = getattr(lp, nm), getattr(lp2, nm)
+                if (a1 is None) != (a2 is None) or (a1 is not None and np.shape(a1) != np.shape(a2)):
+                    shape_bad = nm
+                elif a1 is not None:
+                    same += [smt.eq(u, w) for u, w in zip(np.asarray(a1, dtype=object).reshape(-1), np.asarray(a2, dtype=object).reshape(-1))]
+            if shape_bad:
+                res.append(violation(f"C05|re-extract-data|{form}", f"{tag}: a second extraction returns another shape for {shape_bad}", dict(payload, kind="reextract")))
+            elif same:
+                res.append(K.decide(same, pc, [], f"{tag}: a second extraction returns the same cost vector and rows", f"C05|re-extract-data|{form}", dict(payload, kind="reextract"), allv + nb_names, QT[_TIER]))
             if bad or cols2 != cols:
                 res.append(violation(f"C05|re-extract-bounds|{form}", f"{tag}: after re-assigning the bounds a second extraction gives bound {bad} / columns {cols2}", dict(payload, kind="reextract")))
             else:
@@ -252,6 +264,10 @@ def replay(payload):
                     lb, ub = out["new_bounds"][n]
                     if (glb is None) != (lb is None) or (gub is None) != (ub is None) or (lb is not None and abs(glb - lb) > 1e-12) or (ub is not None and abs(gub - ub) > 1e-12):
                         return True, f"after re-assigning the bounds of {n} to {(lb, ub)} a second extraction still reports {(glb, gub)}"
+                for nm in ("c", "A_ub", "b_ub", "A_eq", "b_eq"):
+                    a1, a2 = getattr(out["lp"], nm), getattr(lp2, nm)
+                    if (a1 is None) != (a2 is None) or (a1 is not None and (np.shape(a1) != np.shape(a2) or not np.allclose(np.asarray(a1, dtype=float), np.asarray(a2, dtype=float), rtol=1e-9, atol=1e-12))):
+                        return True, f"a second extraction of the same problem returns {nm}={np.asarray(a2).tolist()} instead of {np.asarray(a1).tolist()}"
                 continue
             lp = out["lp"]
             cols = list(lp.variables)
